@@ -3,7 +3,10 @@
 not-applicable table below. Run after editing props.json."""
 import json, os
 root = os.path.dirname(os.path.dirname(os.path.abspath(__file__)))
+import glob
 props = json.load(open(os.path.join(root, "engine", "props.json")))
+for f in sorted(glob.glob(os.path.join(root, "engine", "props.d", "*.json"))):
+    props.update(json.load(open(f)))
 ids = [json.loads(l)["id"] for l in open(os.path.join(root, "properties.jsonl")) if l.strip()]
 NA = {
  "C15": "pure function of (filter tree, tag map): no schedule, clock, fault or interleaving for a simulator to decide",
